@@ -7,7 +7,7 @@ spacepackets/cfdp/pdu/nak.py carry loop contracts, the encoding / decoding of a 
 number of segment requests."""
 import struct
 from pyvc_spec import *
-from spec_cfdp import fss, fss_len, with_crc_trailer
+from spec_cfdp import fss, fss_len, with_crc_trailer, pdu_header_octets
 from spec_cfdp_dir_b import directive_pdu, directive_body, nak_params, fss_fits, crc_len, TOWARDS_RECEIVER, TOWARDS_SENDER
 from cfdp_common import mk_conf, ids_in_range, W
 from spacepackets.cfdp.defs import Direction, TransmissionMode, CrcFlag, LargeFileFlag, SegmentationControl, UnsupportedCfdpVersion
@@ -17,8 +17,8 @@ from spacepackets.cfdp.pdu.nak import NakPdu
 NAKQ = "spacepackets.cfdp.pdu.nak:"
 NO_SEG = SegmentationControl.NO_RECORD_BOUNDARIES_PRESERVATION
 # every width occurs; the list-free harnesses of c06b cover all 16 (entity ID, sequence number) width pairs
-W2 = Choice(1, 8)
-W2B = Choice(2, 4)
+W2 = by_tier(Choice(1), Choice(1, 8))
+W2B = by_tier(Choice(2), Choice(2, 4))
 
 
 def wrap_fss(large, v):
@@ -86,6 +86,19 @@ def dec_enc_step(init: PairList, a: Int, b: Int, large: Bool):
     ensures("base", dec_reqs(enc_reqs([], large), large) == [])
 
 
+@lemma(["C06"], "fit_reqs/member")
+def fit_member_step(before: PairList, a: Int, b: Int, after_init: PairList, y0: Int, y1: Int, large: Bool):
+    """fit_reqs(A ++ [x] ++ R) ==> x fits   (induction on |R|; the hypothesis is used for R without its last element)"""
+    L0 = before + [(a, b)]
+    unfold(fit_reqs, L0, large)
+    ensures("base", implies(fit_reqs(L0, large), both(fss_fits(large, a), fss_fits(large, b))))
+    shorter = before + [(a, b)] + after_init
+    L = shorter + [(y0, y1)]
+    requires(implies(fit_reqs(shorter, large), both(fss_fits(large, a), fss_fits(large, b))))        # induction hypothesis
+    unfold(fit_reqs, L, large)
+    ensures("step", implies(fit_reqs(L, large), both(fss_fits(large, a), fss_fits(large, b))))
+
+
 @lemma(["C06"], "dec_reqs/length")
 def dec_length_step(region: Bytes, large: Bool):
     """2 * fss_len * len(dec_reqs(R)) == |R| for a region holding whole requests (induction on |R|)"""
@@ -102,8 +115,12 @@ def dec_length_step(region: Bytes, large: Bool):
 # loop contracts for the two loops of nak.py
 # ---------------------------------------------------------------------------------------------
 @loop_spec(NAKQ + "NakPdu.pack", 0, havoc={"nak_pdu": BytesArr()})
-def pack_loop(self, nak_pdu, loop_seen, entry):
+def pack_loop(self, nak_pdu, loop_seen, loop_item, entry):
     large = self.pdu_file_directive.pdu_header.large_file_flag_set
+    if loop_item is not None:
+        # the element about to be packed is a member of the list: if the whole list fits, so does this element
+        use_lemma("fit_reqs/member", implies(fit_reqs(self._segment_requests, large),
+                                             both(fss_fits(large, loop_item[0]), fss_fits(large, loop_item[1]))))
     unfold(enc_reqs, loop_seen, large)
     unfold(fit_reqs, loop_seen, large)
     invariant("octets", nak_pdu == entry.nak_pdu + enc_reqs(loop_seen, large))
@@ -161,7 +178,7 @@ def hdr_len_of(data):
 
 def nak_unpack_any(data, c0, c1):
     """NakPdu.unpack on an ARBITRARY octet string (no bound on the declared length / number of requests)"""
-    if len(data) >= 4:
+    if c0 is not None and len(data) >= 4:
         requires(either(bits(data[3], 6, 4) == c0, bits(data[3], 6, 4) == c1))
     o = outcome(NakPdu.unpack, data)
     ensures("raises-only", o.ok or o.raised(ValueError, InvalidCrc, UnsupportedCfdpVersion))
@@ -185,7 +202,20 @@ def nak_unpack_any(data, c0, c1):
         ensures("reported-length", g.packet_len == n)
 
 
-NAK_ANY = dict(verifies=[NAKQ + "NakPdu.unpack"], lia_branch=True, shards=8, shard_depth=10)
+# the three fully arbitrary harnesses (any header octets) are expensive: thorough tier; the quick tier runs the same clauses on
+# a well-formed fixed header of any configuration followed by ARBITRARY octets of any length (arbitrary headers with short
+# declared lengths are covered by contracts/c06b.py and C05)
+NAK_ANY = dict(verifies=[NAKQ + "NakPdu.unpack"], lia_branch=True, shards=8, shard_depth=10, tier="thorough")
+
+
+@obligation(["C06", "C09", "C10", "C04"], "NakPdu.unpack/any-list/valid-header", verifies=[NAKQ + "NakPdu.unpack"], lia_branch=True,
+            shards=4, shard_depth=6)
+def nak_unpack_any_valid_header(direction: EnumOf(Direction), mode: EnumOf(TransmissionMode), crc: EnumOf(CrcFlag),
+                                large: EnumOf(LargeFileFlag), we: W2, ws: W2B, src: Int, seq: Int, dst: Int,
+                                dlen: IntRange(0, 65535), rest: Bytes):
+    requires(ids_in_range(we, ws, src, seq, dst))
+    data = pdu_header_octets(0, direction, mode, crc, large, dlen, 0, 0, we, ws, src, seq, dst) + rest
+    nak_unpack_any(data, None, None)
 
 
 @obligation(["C06", "C09", "C10", "C04"], "NakPdu.unpack/any-list/idw1-2", **NAK_ANY)
@@ -220,8 +250,10 @@ def nak_roundtrip_any(mode: EnumOf(TransmissionMode), crc: EnumOf(CrcFlag), larg
     pdu = NakPdu(conf, start, end, reqs)
     use_lemma("enc_reqs/length", len(enc_reqs(reqs, lg)) == 2 * fss_len(lg) * len(reqs))
     use_lemma("dec_reqs/inverse-of-enc", implies(fit_reqs(reqs, lg), dec_reqs(enc_reqs(reqs, lg), lg) == reqs))
+    requires(both(fss_fits(lg, start), fss_fits(lg, end), fit_reqs(reqs, lg)))
     p = outcome(pdu.pack)
-    requires(p.ok)          # every PDU that can be packed at all (NakPdu.pack/any-list: then all offsets fit their fields)
+    ensures("fitting-values-are-packed", p.ok)
+    requires(p.ok)
     raw = p.value
     o = outcome(NakPdu.unpack, raw)
     ensures("accepted", o.ok)
